@@ -104,18 +104,20 @@ class NpModuleEnv(ModuleEnv):
         if isinstance(base, VRec) and base.name in ('arr', 'carr'):
             f = base.fields
             if attr == 'shape':
-                d = eng.decide(st, f['ndim'].t == 1)
+                k1 = ('ndim-is-1', str(f['ndim'].t))
+                k2 = ('ndim-is-2', str(f['ndim'].t))
+                d = eng.decide(st, f['ndim'].t == 1, k1)
                 if d is True:
                     return VTuple([f['rows']])
-                d2 = eng.decide(st, f['ndim'].t == 2)
+                d2 = eng.decide(st, f['ndim'].t == 2, k2)
                 if d2 is True:
                     return VTuple([f['rows'], f['cols']])
                 if st.spec:
                     raise Unsupported('shape of array of undecided ndim in a specification')
                 if d is None:
-                    raise ForkReq(f['ndim'].t == 1)
+                    raise ForkReq(f['ndim'].t == 1, k1)
                 if d2 is None:
-                    raise ForkReq(f['ndim'].t == 2)
+                    raise ForkReq(f['ndim'].t == 2, k2)
                 return VUnknown('shape of array with ndim not in {1,2}')
             if attr == 'flags' and 'writeable' in f:
                 return VConst(('flags', base))
